@@ -106,6 +106,15 @@ def extract(ctx):
 
 
 def drive(ctx, exe, cmd, sub=None, extra=(), timeout=3000, env=None):
+    t0 = time.time()
+    try:
+        return _drive(ctx, exe, cmd, sub, extra, timeout, env)
+    finally:
+        if os.environ.get('VERIF_TIMING'):
+            print('TIMING drive %s %s %.1fs' % (cmd, sub or '', time.time() - t0), flush=True)
+
+
+def _drive(ctx, exe, cmd, sub=None, extra=(), timeout=3000, env=None):
     d = ctx.path(sub or cmd, '.keep')
     d = os.path.dirname(d)
     e = dict(GOENV)
@@ -311,6 +320,15 @@ def _one_trace(args):
 
 
 def tlc_trace(ctx, module, tracefile, header=0, shards=8, timeout=1800, cfg=None, segment_key=None, extra_files=()):
+    t0 = time.time()
+    try:
+        return _tlc_trace(ctx, module, tracefile, header, shards, timeout, cfg, segment_key, extra_files)
+    finally:
+        if os.environ.get('VERIF_TIMING'):
+            print('TIMING trace %s %s %.1fs' % (module, os.path.basename(tracefile), time.time() - t0), flush=True)
+
+
+def _tlc_trace(ctx, module, tracefile, header=0, shards=8, timeout=1800, cfg=None, segment_key=None, extra_files=()):
     """Trace validation: the recorded events are consumed one per step by the trace specification.
     Returns the list of rejected events as (1-based line number in tracefile, payload).
     The first `header` lines are replicated into every shard.  With segment_key the shards are cut
